@@ -432,6 +432,16 @@ func runSeq(c Case, s *hx.Sink, outDir string) string {
 				if b3, err := cbytes.NewBlocks(int(c.Bs), cp, c.Fit); err == nil {
 					set, sane = recoverSet(b3)
 					s.Count("rset:copy")
+					if last && c.Backend == "mem" && cur <= 1<<20 && cur%int64(files.BlockSize) != 0 {
+						// the same bytes written to a file and opened through a memory-mapped file whose size is the next
+						// multiple of the mapping unit (the file is extended): the allocator on it (not exact-fit: there is
+						// room behind the segments) must find the same blocks allocated
+						if got, ok := viaMappedFile(c, st.whole[:cur], outDir); ok && fmt.Sprint(got) != fmt.Sprint(set) {
+							s.DirectViolation(c.ID, "the bytes of the allocator, written to a file and opened through a memory-mapped file of the next larger mappable size, give another set of allocated blocks",
+								map[string]any{"bytes": cur, "in_memory": ranges(set), "through_the_mapped_file": ranges(got)})
+						}
+						s.Count("rset:bytes-through-a-larger-mapped-file")
+					}
 					if b3.Count() != b.Count() {
 						s.Count("rset:copy-with-more-segments")
 					}
@@ -560,4 +570,33 @@ func main() {
 		"grow: bts.Grow on the storage under the live allocator (by less than a segment, exactly one, several, smaller = error, same size), the same allocator used afterwards, state recovered from a copy, reopen later, calls over the enlarged index range; directed: full segment / partial / garbage tail / fit; "+
 		"mmf: the same through a memory mapped file that is closed and mapped again; conc: 8 goroutines on one allocator. "+
 		"distinct = by content hash; non-trivial = at least 3 calls with an ArrangeBlock and a FreeBlock or reopen (every concurrent run)", false)
+}
+
+// viaMappedFile writes the bytes to a fresh file, maps it with the next multiple of files.BlockSize as its size and
+// returns the allocated set an allocator finds there (ok=false: the geometry does not open that way, nothing to compare)
+func viaMappedFile(c Case, bytes []byte, dir string) ([]int64, bool) {
+	path := filepath.Join(dir, fmt.Sprintf("c17_%d_%d.img", os.Getpid(), c.ID))
+	defer os.Remove(path)
+	if err := os.WriteFile(path, bytes, 0o644); err != nil {
+		return nil, false
+	}
+	bsz := int64(files.BlockSize)
+	size := (int64(len(bytes)) + bsz - 1) / bsz * bsz
+	mf, err := files.NewMMFile(path, size)
+	if err != nil {
+		return nil, false
+	}
+	defer mf.Close()
+	b, err := cbytes.NewBlocks(int(c.Bs), mf, false)
+	if err != nil {
+		return nil, false
+	}
+	n := int64(len(bytes)) / segSize(c.Bs) * (c.Bs * 8)
+	var set []int64
+	for i := int64(0); i < n && i < int64(b.Count()); i++ {
+		if err := b.FreeBlock(int(i)); err == nil {
+			set = append(set, i)
+		}
+	}
+	return set, true
 }
